@@ -66,6 +66,42 @@ pub fn gen(tier: &str, seed: u64) -> Vec<String> {
             lines.push(mk_kline("KAN", false, &cfg, &h));
         }
     }
+    // the states buffer (64) full when a key with a custom action is pressed: seven keys holding ten key
+    // codes each, then the custom key, then everything released in either order
+    for custom in ["mlft", "(mwheel-up 20 120)", "(movemouse-left 20 1)", "(unmod y)", "(multi lsft mrgt)"] {
+        let ks = ["a", "b", "c", "d", "e", "f", "g", "h"];
+        let big = "(multi f13 f14 f15 f16 f17 f18 f19 f20 f21 f22)";
+        let mut cfg = String::from("(defsrc a b c d e f g h)\n(deflayer l0");
+        for _ in 0..7 {
+            cfg.push(' ');
+            cfg.push_str(big);
+        }
+        cfg.push_str(&format!(" {custom})\n"));
+        for nheld in [5usize, 6, 7] {
+            for custom_first_up in [false, true] {
+                let mut h = vec![];
+                for k in &ks[..nheld] {
+                    h.push(KEv::L(HEv::Press(0, code(k))));
+                    h.push(KEv::L(HEv::Tick(2)));
+                }
+                h.push(KEv::L(HEv::Press(0, code("h"))));
+                h.push(KEv::L(HEv::Tick(30)));
+                if custom_first_up {
+                    h.push(KEv::L(HEv::Release(0, code("h"))));
+                    h.push(KEv::L(HEv::Tick(5)));
+                }
+                for k in &ks[..nheld] {
+                    h.push(KEv::L(HEv::Release(0, code(k))));
+                    h.push(KEv::L(HEv::Tick(2)));
+                }
+                if !custom_first_up {
+                    h.push(KEv::L(HEv::Release(0, code("h"))));
+                }
+                h.push(KEv::L(HEv::Tick(3000)));
+                lines.push(mk_kline("KAN", false, &cfg, &h));
+            }
+        }
+    }
     // macros whose items act on the OS through custom actions (mouse button, unmod, unshift), cancelled
     // at every millisecond of their run: by releasing the macro key, by pressing another key, by both
     for body in ["x mlft 20 z", "x (unmod y) 20 z", "(unshift w) 5 mrgt 5 q", "S-(x mlft) 10 y"] {
